@@ -64,7 +64,7 @@ def literal_fn(lit):
             parts += [":chain/lxl-%s" % code, "(%s %s x %s)" % (op, lit, lit)]        # n-ary chains
             parts += [":chain/xlx-%s" % code, "(%s x %s x)" % (op, lit)]
             parts += [":chain/xxl-%s" % code, "(%s x x %s)" % (op, lit)]
-    parts += [":fn/cmp", "(cmp x %s)" % lit, ":fn/rcmp", "(cmp %s x)" % lit, ":fn/compare", "(compare x %s)" % lit]
+    parts += [":fn/cmp", "(cmp x %s)" % lit, ":fn/rcmp", "(cmp %s x)" % lit, ":fn/compare", "(if (abstract? x) (cmp x %s) (compare x %s))" % (lit, lit)]
     return "(fn [x] [%s])" % " ".join(parts)
 
 
@@ -448,6 +448,31 @@ class Gen:
                 do_churn()
         # symbols / keywords once more, after all the churn
         do_churn()
+        # abstract values whose type has compare / hash hooks (core/s64, core/u64): boundary values, each built in several ways
+        s64 = [0, 1, -1, 2, 5, 2**31 - 1, 2**31, -2**31, -2**31 - 1, 2**32, 2**53, -2**53, 2**53 + 1, 2**62, -2**62, 2**63 - 1, 2**63 - 2,
+               -2**63, -2**63 + 1]
+        u64 = [0, 1, 2, 5, 2**31, 2**32 - 1, 2**32, 2**53, 2**53 + 1, 2**63 - 1, 2**63, 2**63 + 1, 2**64 - 1, 2**64 - 2]
+        for _ in range(8 * self.scale):
+            v = r.next()
+            u64.append(v)
+            s64.append(v - 2**64 if v >= 2**63 else v)
+        for v in s64:
+            E.append(("abstract:int/s64-string", '(int/s64 "%d")' % v))
+            if abs(v) <= 2**53:
+                E.append(("abstract:int/s64-number", "(int/s64 %d)" % v))
+            if -2**63 < v:
+                E.append(("abstract:int/s64-arith", '(+ (int/s64 "%d") 1)' % (v - 1)))
+            E.append(("abstract:int/s64-unmarshal", '(unmarshal (marshal (int/s64 "%d")))' % v))
+        for v in u64:
+            E.append(("abstract:int/u64-string", '(int/u64 "%d")' % v))
+            if v <= 2**53:
+                E.append(("abstract:int/u64-number", "(int/u64 %d)" % v))
+            if v > 0:
+                E.append(("abstract:int/u64-arith", '(+ (int/u64 "%d") 1)' % (v - 1)))
+        E.append(("abstract:in-tuple", '[(int/s64 "9223372036854775807") (int/u64 5)]'))
+        E.append(("abstract:in-tuple", '(tuple (int/s64 "9223372036854775807") (int/u64 "5"))'))
+        E.append(("abstract:as-key", '{(int/s64 -1) 1 (int/u64 "18446744073709551615") 2}'))
+        E.append(("abstract:as-key", '(struct (int/u64 "18446744073709551615") 2 (int/s64 "-1") 1)'))
         for a in syms + kws:
             srcs = self.atom_srcs(a)
             lab, src = srcs[r.below(len(srcs))]
